@@ -252,8 +252,17 @@ def b_id(I, v):
     raise Unsupported("id() of %r" % (v,))
 
 
+def b_setattr(I, obj, name, value):
+    if isinstance(obj, PObj) and isinstance(name, str):
+        if (name + '.setter') in obj.methods:
+            return I.call(obj.methods[name + '.setter'], [obj, value], {})
+        obj.fields[name] = value
+        return None
+    raise Unsupported("setattr on %r" % (obj,))
+
+
 BUILTINS = {
-    'id': Builtin('id', b_id), 'len': Builtin('len', b_len), 'min': Builtin('min', b_min), 'max': Builtin('max', b_max),
+    'setattr': Builtin('setattr', b_setattr), 'id': Builtin('id', b_id), 'len': Builtin('len', b_len), 'min': Builtin('min', b_min), 'max': Builtin('max', b_max),
     'abs': Builtin('abs', b_abs), 'range': Builtin('range', b_range), 'tuple': Builtin('tuple', b_tuple),
     'list': Builtin('list', b_list), 'any': Builtin('any', b_any), 'all': Builtin('all', b_all),
     'zip': Builtin('zip', b_zip), 'enumerate': Builtin('enumerate', b_enumerate),
